@@ -470,7 +470,11 @@ func (a Int) divMod(b Int) (Object, Object, error) {
 	if b == 0 {
 		return nil, nil, divisionByZero
 	}
-	// Can't overflow
+	if a == IntMin && b == -1 {
+		// The only overflowing case: -IntMin does not fit an Int
+		result, err := a.M__neg__()
+		return result, Int(0), err
+	}
 	result, remainder := Int(a/b), Int(a%b)
 	// Implement floor division
 	negativeResult := (a < 0)
